@@ -145,14 +145,15 @@ def divI64 (d : Dur) (q : Int) : Res Dur :=
 
 /-- `Duration::try_truncated_nanoseconds` -/
 def tryTruncated (d : Dur) : Res Int :=
-  if d.c = -32768 ∨ (if d.c < 0 then -d.c else d.c) ≥ 3 then .err
+  if d.c ≥ 3 ∨ d.c < -3 then .err
   else if d.c = -1 then .ok (-(NPC - d.ns))       -- `as i64` exact: below 2^63
   else if d.c ≥ 0 then
     if fitsI64 (d.c * NPC) then
       if fitsI64 (d.c * NPC + d.ns) then .ok (d.c * NPC + d.ns) else .err
     else .err
   else
-    if fitsI64 (d.c * NPC) ∧ fitsI64 (d.c * NPC + d.ns) then .ok (d.c * NPC + d.ns) else .panic
+    -- centuries −2 or −3 (since fix e4d86c7): `i64::try_from(c·NPC + ns as i128)`, an underflow error when it does not fit
+    if fitsI64 (d.c * NPC + d.ns) then .ok (d.c * NPC + d.ns) else .err
 
 /-- `Duration::truncated_nanoseconds` -/
 def truncated (d : Dur) : Res Int :=
